@@ -300,3 +300,27 @@ def rule_cas_memoryless(rep, rid, prog, fields=None, exceptions=None):
                         % (cx.origin, "/".join(sorted(prog.fields(cx))) or "a shared word", ", ".join("%%%d at %s" % (b.id, b.loc) for b in bad)),
                         sample={"fn": cx.origin, "at": cx.loc})
     return n
+
+
+def rule_snapshot_walk_waits(rep, rid, prog, fname, what):
+    """walking a captured MPSC snapshot: the successor of a node that is not the captured tail is read through a wait for the concurrent enqueuer (a NULL
+    do_next there means 'not linked yet', not 'end of list')"""
+    fn = prog.fn(fname)
+    rep.saw(fn)
+    nxt = [l for l in fn.all_insts() if l.op == "load" and "do_next" in prog.fields(l)]
+    waits = calls_named(fn, "_dispatch_wait_for_enqueuer")
+    if not nxt:
+        rep.unknown(rid, "no do_next load in %s" % fname)
+    for l in nxt:
+        ok = False
+        for u in fn.users(l):
+            us = fn.users(u) if u.op in ("inttoptr", "bitcast") else [u]
+            for t in us:
+                if t.op == "icmp" and t.d["pred"] in ("eq", "ne") and any(o[0] == "n" or (o[0] == "c" and o[1] == 0) for o in t.ops):
+                    for br, st, sf in paths.branch_edges(fn, t):
+                        tgt = st if t.d["pred"] == "eq" else sf
+                        if any(wc.block.id == tgt or wc.block.id in fn.reach_from_block(tgt, avoid=frozenset([l.block.id])) for wc in waits):
+                            ok = True
+        rep.require(rid, ok, l.loc, fn.name, "snapshot-walk-stops-at-unlinked-node:%s" % fname,
+                    "%s reads the successor of a node of its captured snapshot without waiting when it is still NULL: a node whose enqueuer has already swapped "
+                    "itself in as tail but not yet linked it ends the walk early, and %s" % (fname, what), sample={"load": l.loc, "waits": len(waits)})
